@@ -530,16 +530,20 @@ func c06ServeSig(in *c06In, hosts []string) string {
 	}
 	hostname := c06HostOnly(rhost)
 	policy := func(s c06Site) string {
-		p := fmt.Sprint(s.Auth, s.Certs)
+		p, pr := fmt.Sprint(s.Auth, s.Certs), ""
 		for _, o := range s.Opts {
 			if o.K == "clients" {
 				p = fmt.Sprint(o.A)
 			}
+			if o.K == "protocols" {
+				pr = fmt.Sprint(o.A)
+			}
 		}
-		return p
+		return p + "|" + pr
 	}
-	// two catch-all sites, at least one spelled 0.0.0.0 or ::, with different client policies (the
-	// compatibility assert looks these up under the unmapped name and never finds the other)
+	// two catch-all sites, at least one spelled 0.0.0.0 or ::, with different client policies or
+	// protocol ranges (F-C06-3, repaired: the compatibility assert looked these up under the
+	// unmapped name and never found the other; the class stays so that a regression is named)
 	for i := range in.Sites {
 		for j := range in.Sites {
 			ki := hosts[i] == "" || hosts[i] == "0.0.0.0" || hosts[i] == "::"
